@@ -123,7 +123,7 @@ def run_confusion(spec, rec, lib):
         elif shape == "big_version":
             usigned["version"] = rng.choice([2**64, 2**1024, 10**400])
         elif shape == "odd_spec_version":
-            usigned["metadata_spec_version"] = rng.choice(["", "99.0.0", "not-a-version"])
+            usigned["metadata_spec_version"] = rng.choice(["", "99.0.0", "not-a-version", "1.0.0", "2.0.0-\u00e9", "1.0.0\ud800", "\U0001f600.0.0", "1"])
         rec.hist("confusion_shape", shape)
         untrusted = gmd.envelope(usigned)
         data = canonjson.canon(usigned)
